@@ -326,7 +326,17 @@ def run_generate(part, name, make, meta, max_steps, max_dev, D):
         return ("ok", res, log)
 
     n = 0
-    for choices, (st, res, log) in tape.explore(one, max_deviations=max_dev):
+    it = tape.explore(one, max_deviations=max_dev)
+    while True:
+        try:
+            choices, (st, res, log) = next(it)
+        except StopIteration:
+            break
+        except tape.ReplayDivergence as e:
+            # replaying a recorded prefix took a different path: generate_problem consulted a source of randomness that is
+            # neither the scripted deterministic PRNG nor one of the scripted callbacks
+            part.violation("generate_problem:nondeterminism-outside-the-deterministic-prng", case, {"divergence": str(e)})
+            break
         n += 1
         part.count("transitions")
         c = dict(case, tape=choices)
